@@ -758,9 +758,19 @@ def stale_id_rule(repo, rid):
             if not calls:
                 continue
             cfg = cfg or cfg_of(f.node)
-            it = lp.iter
-            rev = isinstance(it, ast.Call) and is_name(it.func, 'reversed') and len(it.args) == 1
-            seq = it.args[0] if rev else it
+            # reversed(X), list(reversed(X)), reversed(list(X)), X[::-1]: the order is what matters, copies in between change nothing
+            it, rev, copied = lp.iter, False, False
+            while True:
+                if isinstance(it, ast.Call) and isinstance(it.func, ast.Name) and it.func.id in ('list', 'tuple') and len(it.args) == 1:
+                    it, copied = it.args[0], True
+                elif isinstance(it, ast.Call) and is_name(it.func, 'reversed') and len(it.args) == 1:
+                    it, rev = it.args[0], not rev
+                elif isinstance(it, ast.Subscript) and isinstance(it.slice, ast.Slice) and it.slice.lower is None and it.slice.upper is None and \
+                        isinstance(it.slice.step, ast.UnaryOp) and isinstance(it.slice.step.op, ast.USub) and getattr(it.slice.step.operand, 'value', None) == 1:
+                    it, rev, copied = it.value, not rev, True
+                else:
+                    break
+            seq = it
             problems = []
             # (a) order
             head = [n for n in cfg.nodes if n.kind == 'iter' and n.ast is lp]
@@ -769,7 +779,7 @@ def stale_id_rule(repo, rid):
             if not rev and comes_back:
                 problems.append('the lines are visited in forward order: after `%s` the identifiers of the following lines are one too high' % src(calls[0], 40))
             # (b) live list
-            snap = isinstance(seq, ast.Call) and isinstance(seq.func, ast.Name) and seq.func.id in ('list', 'tuple', 'sorted')
+            snap = copied or (isinstance(seq, ast.Call) and isinstance(seq.func, ast.Name) and seq.func.id in ('list', 'tuple', 'sorted'))
             inl = flow.inline(seq)
             live = not snap and any(isinstance(x, ast.Attribute) and x.attr == 'subproof' for x in ast.walk(inl))
             if live:
